@@ -24,7 +24,7 @@ fn streams(t: Tier) -> Vec<StreamDef> {
     vec![
         st("avp", t.n(80_000, 4_000_000, 200, 20_000), false),
         st("msg", t.n(20_000, 600_000, 40, 5_000), false),
-        st("big", t.n(48, 600, 1, 16), false),
+        st("big", t.n(72, 900, 1, 24), false),
     ]
 }
 
@@ -32,7 +32,7 @@ fn floors(t: Tier) -> Vec<(String, u64)> {
     if t == Tier::Miri {
         return vec![("avp.roundtrip".into(), 50)];
     }
-    let mut f: Vec<(String, u64)> = vec![("avp.roundtrip".into(), 10_000), ("msg.roundtrip".into(), 1000), ("len.256-1022".into(), 100), ("len.1023".into(), 20), ("msg.size.65535".into(), 1), ("msg.zlb".into(), 10)];
+    let mut f: Vec<(String, u64)> = vec![("avp.roundtrip".into(), 10_000), ("msg.roundtrip".into(), 1000), ("len.256-1022".into(), 100), ("len.1023".into(), 20), ("msg.size.65535".into(), 1), ("msg.zlb".into(), 10), ("msg.many_minimal_avps".into(), 10)];
     for k in 0..val::KINDS {
         f.push((format!("kind.{}", k), 20));
     }
@@ -169,6 +169,18 @@ fn run(ctx: &mut Ctx) {
             // exact sizes around the 16-bit limit
             let targets = [65535usize, 65534, 65535 - 7, 65000, 40000, 32768 + 7, 32767 + 8, 16384 + 7];
             let t = targets[(ctx.idx % targets.len() as u64) as usize];
+            if ctx.idx % 3 == 2 {
+                // the fullest possible message: Message Type + thousands of minimal AVPs
+                let n = *ctx.rng.pick(&[8_191usize, 8_192, 10_000, 10_240, 10_241, 10_900, 10_919]);
+                let mut avps = vec![val::avp_of(&mut ctx.rng, 0, 8)];
+                for _ in 0..n {
+                    avps.push(SAvp { attr: 39, hidden: false, body: SBody::Empty });
+                }
+                let c = SControl { length: 0, tunnel: 1, session: 2, ns: 3, nr: 4, avps };
+                ctx.rep.bucket("msg.many_minimal_avps");
+                msg_roundtrip(ctx, &c);
+                return;
+            }
             let c = val::control_exact(&mut ctx.rng, t);
             msg_roundtrip(ctx, &c);
         }
